@@ -16,6 +16,9 @@ structure Info where
   rate : Int := 0
   bs0 : Int := 0
   bs1 : Int := 0
+  brUpper : Int := 0           -- (ogg_int32_t) fields of the identification header
+  brNominal : Int := 0
+  brLower : Int := 0
   vendor : Bool := false       -- `vc->vendor != NULL`
   setup : Option Setup := none
   halfrate : Nat := 0
@@ -39,9 +42,10 @@ def unpackInfo (i : Info) (r : Reader) : Info × Int :=
   if version ≠ 0 then ({ i with version := version }, OV_EVERSION) else
   let (channels, r) := r.read 8
   let (rate, r) := r.read 32
-  let (_, r) := r.read 32
-  let (_, r) := r.read 32
-  let (_, r) := r.read 32
+  let (bu, r) := r.read 32
+  let (bn, r) := r.read 32
+  let (bl, r) := r.read 32
+  let s32 (v : Int) : Int := if v ≥ 2147483648 then v - 4294967296 else v     -- `(ogg_int32_t)`
   let (b0, r) := r.read 4
   if b0 < 0 then (Info.cleared, OV_EBADHEADER) else
   let (b1, r) := r.read 4
@@ -51,7 +55,8 @@ def unpackInfo (i : Info) (r : Reader) : Info × Int :=
   if rate < 1 ∨ channels < 1 ∨ bs0 < 64 ∨ bs1 < bs0 ∨ bs1 > 8192 then (Info.cleared, OV_EBADHEADER) else
   let (fr, _) := r.read 1
   if fr ≠ 1 then (Info.cleared, OV_EBADHEADER)
-  else ({ i with version := 0, channels := channels, rate := rate, bs0 := bs0, bs1 := bs1 }, 0)
+  else ({ i with version := 0, channels := channels, rate := rate, bs0 := bs0, bs1 := bs1,
+                 brUpper := s32 bu, brNominal := s32 bn, brLower := s32 bl }, 0)
 
 def vorbisTag : List Int := [118, 111, 114, 98, 105, 115]
 
